@@ -377,7 +377,9 @@ def apply_exh(repo: Repo, rep):
     kinds = change_classes(repo)
     routed: Set[str] = set()
     parent_kinds: Set[str] = set()
-    for n in body_nodes(f.node):
+    cfg0 = cfg_of(f)
+    cond_calls = [c.ast for c in cfg0.conds() if isinstance(c.ast, ast.Call)]
+    for n in cond_calls:
         if isinstance(n, ast.Call) and isinstance(n.func, ast.Name) and n.func.id == "isinstance" and len(n.args) == 2:
             names = [x.id for x in ast.walk(n.args[1]) if isinstance(x, ast.Name)] + [x.attr for x in ast.walk(n.args[1]) if isinstance(x, ast.Attribute)]
             for nm in names:
